@@ -205,8 +205,18 @@ pub fn live_mappings(workdir: &str, tr: &mut Trace) {
     let raw = format!("{workdir}/rawmapped_{}.elf", std::process::id());
     let img2 = elfgen::build(&Spec { soname: Some("librawmapped.so.4".into()), id_ph: (90..110).collect(), ..Default::default() });
     let _ = std::fs::write(&raw, &img2.bytes);
+    // and an image without section headers whose FIRST note segment is empty (legal, unusual): the build id is in the second
+    let twonotes = format!("{workdir}/twonotes_{}.elf", std::process::id());
+    let mut img3 = elfgen::build(&Spec { shdrs: false, soname: None, id_ph: (130..150).collect(), ..Default::default() });
+    let (note_off, note_len) = (img3.fields["phnote.namesz"].0 as u64, 16 + 20);
+    for (f, v) in [("ph1.p_filesz", 0), ("ph1.p_memsz", 0), ("ph2.p_type", 4), ("ph2.p_offset", note_off), ("ph2.p_vaddr", note_off), ("ph2.p_paddr", note_off),
+                   ("ph2.p_filesz", note_len), ("ph2.p_memsz", note_len), ("ph2.p_align", 4)] {
+        elfgen::set_field(&mut img3, f, v);
+    }
+    let _ = std::fs::write(&twonotes, &img3.bytes);
     let Ok(t) = TargetProc::spawn(&json!({"threads": [], "file_maps": [{"path": fixed, "off": 0, "len": img.bytes.len(), "exec": true, "fixed": 0x40_0000},
-                                                                       {"path": raw, "off": 0, "len": img2.bytes.len(), "exec": true}]}), workdir, "elf") else { return };
+                                                                       {"path": raw, "off": 0, "len": img2.bytes.len(), "exec": true},
+                                                                       {"path": twonotes, "off": 0, "len": img3.bytes.len(), "exec": true}]}), workdir, "elf") else { return };
     let Ok(mut d) = PtraceDumper::new_report_soft_errors(t.pid, std::time::Duration::from_secs(2), Default::default(), error_graph::strategy::DontCare) else { return };
     d.suspend_threads(error_graph::strategy::DontCare);
     for m in d.mappings.clone() {
@@ -223,7 +233,7 @@ pub fn live_mappings(workdir: &str, tr: &mut Trace) {
             let sl_id = b["hex"].as_str().map(|x| x.to_string());
             let sl_so = s["hex"].as_str().map(|h| String::from_utf8_lossy(&(0..h.len() / 2).map(|i| u8::from_str_radix(&h[2 * i..2 * i + 2], 16).unwrap_or(0)).collect::<Vec<u8>>()).into_owned());
             tr.emit(json!({"ev":"live","path":"[vdso]","panic": panicked || b["res"] == "panic" || s["res"] == "panic",
-                           "memId": mem_id.clone(), "fileId": sl_id.clone(), "idSame": mem_id == sl_id, "soSame": mem_so == sl_so}));
+                           "memId": mem_id.clone().unwrap_or_default(), "fileId": sl_id.clone().unwrap_or_default(), "idSame": mem_id == sl_id, "soSame": mem_so == sl_so}));
             continue;
         }
         if !name.starts_with('/') || m.offset != 0 || !std::path::Path::new(&name).exists() { continue; }
@@ -233,10 +243,11 @@ pub fn live_mappings(workdir: &str, tr: &mut Trace) {
         let so_mem = std::panic::catch_unwind(|| PtraceDumper::from_process_memory_for_mapping::<SoName>(&m, t.pid)).map(|r| r.map(|s| s.0).ok());
         let so_file = std::panic::catch_unwind(|| SoName::read_from_file(std::path::Path::new(&name))).map(|r| r.map(|s| s.0).ok());
         tr.emit(json!({"ev":"live","path":name,"panic": mr.is_err() || fr.is_err() || so_mem.is_err() || so_file.is_err(),
-                       "memId": mr.clone().ok().flatten(), "fileId": fr.clone().ok().flatten(), "idSame": mr.ok().flatten() == fr.ok().flatten(),
+                       "memId": mr.clone().ok().flatten().unwrap_or_default(), "fileId": fr.clone().ok().flatten().unwrap_or_default(), "idSame": mr.ok().flatten() == fr.ok().flatten(),
                        "soSame": so_mem.ok().flatten() == so_file.ok().flatten()}));
     }
     d.resume_threads(error_graph::strategy::DontCare);
     let _ = std::fs::remove_file(&fixed);
     let _ = std::fs::remove_file(&raw);
+    let _ = std::fs::remove_file(&twonotes);
 }
